@@ -197,8 +197,11 @@ class BaseLoader(ABC):
         # resource is not accessible.
         url = str(url)
         if url.startswith("package:"):
-            _, package, filename = url.split(":", 2)
-            file = openPackageResource(package, filename)
+            try:
+                _, package, filename = url.split(":", 2)
+                file = openPackageResource(package, filename)
+            except (ImportError, ValueError) as e:
+                self._raise_open_error(url, str(e))
         else:
             try:
                 file = urllib.request.urlopen(url)
@@ -276,6 +279,10 @@ class BaseLoader(ABC):
 def openPackageResource(package, path):
     __import__(package)
     pkg = sys.modules[package]
+    if not hasattr(pkg, "__path__"):
+        raise ZConfig.SchemaResourceError(
+            "import name does not refer to a package",
+            filename=path, package=package)
     try:
         loader = pkg.__loader__
     except AttributeError:
